@@ -117,12 +117,12 @@ func TestVerifC06Binary(t *testing.T) {
 		}
 		cases = []c06bCase{c}
 	} else {
-		procsList := vx.Pick([]int{1, 4, 16}, []int{1, 2, 4, 16})
+		procsList := vx.Pick([]int{1, 16}, []int{1, 2, 4, 16})
 		for _, ps := range c06bOrderedSubsets(pkgs) {
 			for _, n := range procsList {
 				for _, warm := range []bool{false, true} {
-					if !vx.Thorough() && len(ps) == 4 && n == 4 {
-						continue
+					if !vx.Thorough() && warm && len(ps) > 2 {
+						continue // quick: the shared warm cache only for subsets of <= 2 patterns
 					}
 					cases = append(cases, c06bCase{Kind: "binary", Patterns: ps, Procs: n, Format: "json", Warm: warm})
 				}
